@@ -168,6 +168,7 @@ var verifSelectors = []verifSel{
 	{"a", []string{"a"}}, {"b", []string{"b"}}, {"a.b", []string{"a", "b"}}, {`a\.b`, []string{"a.b"}},
 	{"b.a", []string{"b", "a"}}, {"c", []string{"c"}}, {"a.b.c", []string{"a", "b", "c"}}, {"b.x", []string{"b", "x"}},
 	{"a.z.y", []string{"a", "z", "y"}}, {"a.c", []string{"a", "c"}},
+	{`a\.b.c`, []string{"a.b", "c"}}, {"a-x", []string{"a-x"}},
 }
 
 // event shapes: keys may contain dots; values are scalars, objects, arrays
@@ -177,7 +178,19 @@ func verifDocs() []*verifNode {
 		verifObj("a", verifObj("b", `1`, "c", `2`), "b", verifObj("a", `3`, "x", `[1,2]`), "a.b", `"dotted"`),
 		verifObj("a.b", `1`, "a", verifObj("b", verifObj("c", `7`, "d", `8`), "z", `null`), "c", `[{"a":1}]`, "b", `5`),
 		verifObj("a", `"scalar"`, "b", verifObj("x", verifObj("a", `1`)), "k1", `1`, "k2", `2`, "k3", `3`),
+		verifObj("a-x", `1`, "a.b", verifObj("c", `1`, "d", `2`), "a", verifObj("b", `3`, "c", `4`, "a.b", `5`)),
+		verifWide(),
 	}
+}
+
+// a wide object (more fields than the plugins' initial buffers hold) in front of a nested one
+func verifWide() *verifNode {
+	kv := []any{}
+	for i := 0; i < 103; i++ {
+		kv = append(kv, "j"+string(rune('0'+i/100))+string(rune('0'+i/10%10))+string(rune('0'+i%10)), `0`)
+	}
+	kv = append(kv, "a", verifObj("b", `1`, "y", `2`), "c", `3`)
+	return verifObj(kv...)
 }
 
 // canonical (key-sorted) encoding of the real event tree
@@ -206,9 +219,14 @@ func verifCanon(n *insaneJSON.Node) string {
 }
 
 func verifPick() ([]string, [][]string) {
-	n := 1 + vf.Choose("selectors", vf.Param("S", 2))
+	S := vf.Param("S", 2)
+	n := 1 + vf.Choose("selectors", S+1)
 	var sels []string
 	var paths [][]string
+	if n == S+1 {
+		// a parent, a sibling whose name sorts between the parent and its descendant, and the descendant
+		return []string{"a", "a-x", "a.b"}, [][]string{{"a"}, {"a-x"}, {"a", "b"}}
+	}
 	for i := 0; i < n; i++ {
 		s := verifSelectors[vf.Choose("selector", len(verifSelectors))]
 		sels = append(sels, s.sel)
